@@ -170,6 +170,9 @@ func (r *shRun) vaaName(b []byte) string {
 
 func shEmitterBytes(c int, a string) [32]byte {
 	var e [32]byte
+	if a == "zero" {
+		return e // the all-zero address (with chain 0: the zero value of a filter entry)
+	}
 	copy(e[:], vhExpand(fmt.Sprintf("emitter|%s", a), 32))
 	return e
 }
